@@ -772,7 +772,7 @@ theorem transcribed_cache_code : cacheCode = [
     ("tensordict/_td.py", "TensorDict._erase_names", "def", 114851756678430),
     ("tensordict/_td.py", "TensorDict._rename_subtds", "def", 105382731557165),
     ("tensordict/_lazy.py", "LazyStackedTensorDict.names", "getter", 269035792762992),
-    ("tensordict/_lazy.py", "LazyStackedTensorDict.names", "setter", 234113662859993),
+    ("tensordict/_lazy.py", "LazyStackedTensorDict.names", "setter", 167702147396603),
     ("tensordict/_lazy.py", "LazyStackedTensorDict._erase_names", "def", 152738123587569),
     ("tensordict/_lazy.py", "LazyStackedTensorDict._rename_subtds", "def", 67788134349883),
     ("tensordict/_lazy.py", "LazyStackedTensorDict.clear_device_", "def", 151305357075050)] := by
